@@ -420,7 +420,8 @@ pub fn boundary_lits(e: &str) -> Vec<String> {
         "i64" => vec!["0", "1", "2", "3", "7", "20", "21", "62", "63", "64", "2147483648", "4294967295", "4294967296", "3037000499", "3037000500",
                       "4611686018427387904", "9223372036854775806", "9223372036854775807",
                       // not literals of eval_i64 at all: whatever stands around them, the call must return Err
-                      "9223372036854775808", "18446744073709551616"],
+                      "9223372036854775808", "18446744073709551616", "25000000000000000000", "18446744073709551617", "36893488147419103232",
+                      "99999999999999999999", "27670116110564327424", "20000000000000000000000"],
         "num" => vec!["0", "1", "2", "3", "0.5", ".5", "2.5", "20", "21", "63", "4294967296", "3037000500", "9007199254740992", "9007199254740993",
                       "9223372036854775808.", "18446744073709551616.", "9007199254740993.",
                       "4611686018427387904", "9223372036854775807", "9223372036854775806.", "0.1", "1.5"],
